@@ -360,8 +360,8 @@ func valueFromParam(vt *sym.Term, pname string) bool {
 	if vt.Key() == "$param:"+pname {
 		return true
 	}
-	if vt.Op == "call" && vt.Name == "quantize" && len(vt.Args) == 2 {
-		return vt.Args[1].Key() == "$param:"+pname
+	if q := quantizedArg(vt); q != nil {
+		return q.Key() == "$param:"+pname
 	}
 	return false
 }
